@@ -122,6 +122,8 @@ def obs_synset_x(wn, s):
             'translate': {_spec(l): [_synref(t) for t in s.translate(lexicon=_spec(l))] for l in wn.lexicons()},
             # without a target: every installed lexicon, however the synset was reached (oracle only)
             '_translate_all': [_synref(t) for t in s.translate()],
+            # the simulated root is no stored synset: it has no ILI, proposed or otherwise (oracle only)
+            '_root_ili': sorted({repr(p[-1].ili) for p in s.hypernym_paths(simulate_root=True) if p and p[-1].id == '*ROOT*'}),
             'closure_hypernym': [_synref(t) for t in s.closure('hypernym', 'instance_hypernym')],
             'hypernym_paths': [[_synref(t) for t in p] for p in s.relation_paths('hypernym', 'instance_hypernym')],
             # the taxonomy entry points over the same relation (wn.taxonomy / Synset shortcut methods)
@@ -291,6 +293,7 @@ def canon_battery(b, sort_forms_tail=True):
                    'by_type': {k: sorted(v, key=_k) for k, v in sorted(x.get('by_type', {}).items())},
                    'translate': {k: (sorted(v, key=_k) if isinstance(v, list) else v) for k, v in sorted(x.get('translate', {}).items())},
                    '_translate_all': sorted(x['_translate_all'], key=_k) if '_translate_all' in x else None,
+                   '_root_ili': x.get('_root_ili'),
                    'closure_hypernym': sorted(x['closure_hypernym'], key=_k),
                    'hypernym_paths': sorted(x['hypernym_paths'], key=_k),
                    'tax_paths': sorted(x.get('tax_paths', x['hypernym_paths']), key=_k),
